@@ -4,6 +4,7 @@ of `BUILTIN_OPERATORS` in `src/inner_op/mod.rs`.  The generated file `Gen/Tables
 the operator names found in the source; the check compares the two lists.
 -/
 import Geodesy.Model.Ops.Basic
+import Geodesy.Model.Ops.Helmert
 
 namespace Geodesy
 open Text
@@ -19,18 +20,19 @@ def builtin (ce : Ops.CtorEnv) (name : Str) : Option (Ctor R) :=
   else if name == S "push" then some (Ops.legacyPush ce)
   else if name == S "pop" then some (Ops.legacyPop ce)
   else if name == S "axisswap" then some (Ops.axisswapNew R ce)
+  else if name == S "helmert" then some (Ops.Helmert.new R ce)
   else none
 
 /-- names of the built-ins the model covers (besides `pipeline`) -/
 def modelled : List String :=
-  ["addone", "noop", "longlat", "latlon", "latlong", "lonlat", "stack", "push", "pop", "axisswap"]
+  ["addone", "noop", "longlat", "latlon", "latlong", "lonlat", "stack", "push", "pop", "axisswap", "helmert"]
 
 /-- leaf semantics by constructor tag -/
-def sem : LeafSem R := fun node dir data =>
-  let t := node.tag
+def sem : LeafSem R := fun t params dir data =>
   if t == S "addone" then Ops.addoneSem dir data
   else if t == S "noop" then Ops.noopSem data
-  else if t == S "axisswap" then Ops.axisswapSem R node.params dir data
+  else if t == S "axisswap" then Ops.axisswapSem R params dir data
+  else if t == S "helmert" then Ops.Helmert.sem params dir data
   else if t == S "stack" || t == S "push" || t == S "pop" then Ops.placeholderSem data
   else (data, 0)
 
